@@ -1338,7 +1338,11 @@ func (p *PubSub) announce(topic string, sub bool) {
 }
 
 func (p *PubSub) announceRetry(pid peer.ID, topic string, sub bool) {
+	if verifSleepJitter(1000) {
+		goto slept
+	}
 	time.Sleep(time.Duration(1+rand.Intn(1000)) * time.Millisecond)
+slept:
 
 	retry := func() {
 		_, okSubs := p.mySubs[topic]
